@@ -27,6 +27,8 @@ def display_fmt(ty, spec, facts):
 
 
 H = 'all_ok(ops0)'
+ARM_HINTS = ('match ops0[n] { Op::Dash { pattern, phase } => { lemma_dash(st_open(s0), pattern@); }, '
+             'Op::TextDrawAdjusted { array } => { lemma_tj(array@); }, _ => {} }')
 
 SER_REWRITES = [
     # R7: the sink (a local Vec<u8>) is the reader-state model `Out`
@@ -38,9 +40,11 @@ SER_REWRITES = [
                 'let ghost mut cuts: Seq<int> = seq![0int]; let ghost mut lasts: Seq<Point> = seq![origin()];'},
     {'rule': 'R1', 'find': 'let mut advance = 1;', 'replace': 'let mut advance = 1; let ghost s0 = f.st();'},
     {'rule': 'R1', 'find': 'ops = &ops[advance..];',
-     'replace': 'proof { match ops0[n] { Op::Dash { pattern, phase } => { lemma_dash(st_open(s0), pattern@); }, Op::TextDrawAdjusted { array } => { lemma_tj(array@); }, _ => {} } lemma_step(s0.recs, cuts, lasts, ops0, f.st().recs.last(), advance as int); '
-                'lasts = lasts.push(new_last_k(kw(f.st().recs.last().kw), f.st().recs.last().a, lasts.last())); '
-                'n = n + advance; cuts = cuts.push(n); } ops = &ops[advance..];'},
+     'replace': 'proof { let rec = f.st().recs.last(); let cnt = row_count(rec, lasts.last()); '
+                'assert(%s ==> advance == cnt); //@L window_advance\n '
+                'lemma_step(s0.recs, cuts, lasts, ops0, rec, cnt); '
+                'lasts = lasts.push(new_last_k(kw(rec.kw), rec.a, lasts.last())); '
+                'n = n + advance; cuts = cuts.push(n); } ops = &ops[advance..];' % H},
     # R2: deref coercion `&Name -> &str` written out
     {'rule': 'R2', 'regex': r'serialize_name\((\w+), f\)', 'count': '*', 'replace': r'serialize_name(\1.as_str(), f)'},
     # R10: slice patterns over the look-ahead window `ops[1..]` -> the same patterns over (ops.get(1), ops.get(2), ..).
@@ -66,6 +70,9 @@ SER_REWRITES = [
     {'rule': 'R6', 'find': 'for (i, val) in array.iter().enumerate() {',
      'replace': 'for i in 0..array.len() { let val = &array[i]; '
                 'proof { assert(tj_toks(array@.take(i + 1)) =~= tj_toks(array@.take(i as int)).push(tj_tok(array@[i as int]))); }'},
+    # R1: every `writeln!(..)?` completes one operator record: the per-arm check is injected right behind it
+    {'rule': 'R1', 'regex': r'writeln!\(((?:[^()]|\((?:[^()]|\([^()]*\))*\))*)\)\?', 'count': '*',
+     'replace': r'({ writeln!(\1)?; proof { ' + ARM_HINTS + ' assert(%s ==> arm_ok(s0, f.st(), lasts.last(), ops0, n)); //@L round_trip\n } })' % H},
     # R4: unimplemented!() must be unreachable
     {'rule': 'R4', 'regex': r'unimplemented!\(\)', 'count': '*', 'replace': 'verif_panic("unimplemented")'},
 ]
